@@ -340,6 +340,16 @@ def run_concurrent(cseed: str, chk: Check, *, bound: int, max_dfs: int, pct: int
     kinds = [rng.choice(["cont_warm", "cont_warm", "cont_cold", "init"]) for _ in range(rng.choice([2, 2, 3]))]
     if not any(k.startswith("cont") for k in kinds):
         kinds[0] = "cont_warm"
+    if cseed.startswith("conc:fixed:"):
+        # seed-independent shapes: a live entry read while another request inserts / evicts / replaces
+        cap, nstreams, kinds = [
+            (1, 2, ["cont_warm", "cont_cold"]),
+            (1, 2, ["cont_warm", "init"]),
+            (2, 3, ["cont_warm", "cont_warm"]),
+            (2, 3, ["cont_warm", "cont_cold"]),
+            (2, 2, ["cont_warm", "cont_warm", "init"]),
+            (1, 3, ["cont_cold", "cont_cold"]),
+        ][int(cseed.rsplit(":", 1)[1]) % 6]
     script = {"cap": cap, "streams": nstreams, "actors": kinds, "seed": cseed}
     ref: list[Any] = [None]
     real_threading = st.threading
@@ -443,6 +453,11 @@ def run_concurrent(cseed: str, chk: Check, *, bound: int, max_dfs: int, pct: int
     try:
         st1 = S.explore_dfs(make_run_for("coarse"), bound=bound, max_schedules=max_dfs, on_done=judge)
         chk.extra["concurrent_dfs_schedules"] = chk.extra.get("concurrent_dfs_schedules", 0) + st1["distinct"]
+        # statement-granular DFS with one preemption: every single switch point inside get()/put() of every request
+        st3 = S.explore_dfs(make_run_for("line"), bound=1, max_schedules=max_dfs * 3, on_done=judge)
+        chk.extra["concurrent_line_dfs_schedules"] = chk.extra.get("concurrent_line_dfs_schedules", 0) + st3["distinct"]
+        if st3["truncated"]:
+            chk.extra["concurrent_line_dfs_truncated"] = chk.extra.get("concurrent_line_dfs_truncated", 0) + 1
         strategies = [S.PCTStrategy(random.Random(rng.random()), len(kinds), depth=3, horizon=150) for _ in range(pct)]
         st2 = S.explore_sampled(make_run_for("line"), strategies, on_done=judge)
         chk.extra["concurrent_pct_schedules"] = chk.extra.get("concurrent_pct_schedules", 0) + st2["schedules"]
@@ -491,7 +506,7 @@ def main(tier: str, seed: int) -> int:
         "the repo's _open_cursor_token/_compute_aad are used as a tool to read returned cursors",
     ]
     n, nc, nconc = (600, 160, 24) if tier == "quick" else (10000, 2500, 400)
-    hs = [f"h:{seed}:{i}" for i in range(n)] + [f"collide:{seed}:{i}" for i in range(nc)] + [f"conc:{seed}:{i}" for i in range(nconc)]
+    hs = [f"h:{seed}:{i}" for i in range(n)] + [f"collide:{seed}:{i}" for i in range(nc)] + [f"conc:{seed}:{i}" for i in range(nconc)] + [f"conc:fixed:{i}" for i in range(6)]
     random.Random(f"C14:{seed}").shuffle(hs)
     jobs = [{"histories": part, "tier": tier, "seed": seed, "bound": 2, "max_dfs": 60 if tier == "quick" else 250, "pct": 20 if tier == "quick" else 60} for part in shard.split(hs, 12 if tier == "quick" else 64)]
     for res in shard.pmap("checks.c14", "run_shard", jobs, timeout=1500.0):
